@@ -50,6 +50,29 @@ def check_no_global_rng(ctx, rule: str) -> None:
     # from the process-global `random` generator there shifts what a node function that uses seeded `random` sees next —
     # the run's values then differ between 'with processors' and 'without'.  uuid4/os.urandom/secrets/time are not shared state.
     GLOBAL_RNG = {"random", "randint", "randrange", "getrandbits", "choice", "choices", "shuffle", "sample", "uniform", "gauss", "seed", "randbytes", "betavariate", "expovariate", "normalvariate", "triangular"}
+    GLOBAL_STATE = {
+        "asyncio.run": "installs its own event loop as the thread's current loop and leaves the current loop unset on return",
+        "asyncio.set_event_loop": "rebinds the thread's current event loop",
+        "asyncio.set_event_loop_policy": "rebinds the process-wide event loop policy",
+        "asyncio.new_event_loop": "creates a loop to be installed for the thread",
+        "os.chdir": "changes the process working directory",
+        "os.putenv": "changes the process environment",
+        "os.umask": "changes the process umask",
+        "sys.setrecursionlimit": "changes the interpreter recursion limit",
+        "sys.settrace": "installs a trace function",
+        "sys.setprofile": "installs a profile function",
+        "signal.signal": "replaces a process signal handler",
+        "warnings.simplefilter": "rewrites the process-wide warning filters (a node that turns warnings into errors behaves differently)",
+        "warnings.filterwarnings": "rewrites the process-wide warning filters",
+        "warnings.resetwarnings": "rewrites the process-wide warning filters",
+        "logging.basicConfig": "configures the root logger",
+        "locale.setlocale": "changes the process locale",
+        "decimal.setcontext": "replaces the thread's decimal context",
+        "gc.disable": "switches the collector off for the process",
+        "gc.enable": "switches the collector on for the process",
+        "socket.setdefaulttimeout": "changes the default time-out of every new socket",
+    }
+    glob8: dict[str, tuple[ast.AST, str]] = {}
     for f8 in db.funcs_in("events") + db.funcs_in("runners"):
         bad8 = []
         for c in db.calls_in(f8):
@@ -63,7 +86,21 @@ def check_no_global_rng(ctx, rule: str) -> None:
                 imp = f8.module.imports.get(parts[0]) if hasattr(f8.module, "imports") else None
                 if imp and str(imp).startswith("random"):
                     bad8.append(c)
+        # other state the whole thread/process shares with node functions (each entry: what a call rebinds)
+        for c in db.calls_in(f8):
+            d8 = dotted(c.func) or ""
+            if d8 in GLOBAL_STATE and not glob8.get(f8.qname):
+                glob8[f8.qname] = (c, GLOBAL_STATE[d8])
+        for n8 in walk_local(f8.node):
+            if isinstance(n8, (ast.Subscript, ast.Attribute)) and isinstance(n8.ctx, (ast.Store, ast.Del)) and src(n8.value) in ("os.environ", "sys.modules", "sys.path") and not glob8.get(f8.qname):
+                glob8[f8.qname] = (n8, f"writes {src(n8.value)}")
         rep.add(rule, f"{f8.qname}:no-global-rng", not bad8, f"{f8.module.rel}:{bad8[0].lineno if bad8 else f8.lineno}", "does not touch the process-global random generator" if not bad8 else f"'{src(bad8[0])[:50]}' draws from the process-global random generator in code whose execution depends on whether processors are attached: a node reading seeded `random` afterwards computes a different value with observers than without")
+
+
+    for q8, (n8, what8) in sorted(glob8.items()):
+        f8 = db.func(q8)
+        rep.bad(rule, f"{q8}:no-shared-thread-state", f"{f8.module.rel}:{n8.lineno}", f"'{src(n8)[:50]}' {what8}: observer-side code (it runs only, or differently often, when processors are attached) changes state that node functions read — the run's outcome differs between 'with processors' and 'without'")
+    rep.add(rule, "observer-layer:no-shared-thread-state", not glob8, "src/hypergraph/events", f"no call under events/ or the runners rebinds thread- or process-wide state ({len(GLOBAL_STATE)} entry points checked)" if not glob8 else f"{len(glob8)} function(s) rebind thread- or process-wide state")
 
 
 def run(ctx) -> None:
@@ -370,6 +407,8 @@ DISP = "src/hypergraph/events/dispatcher.py"
 VARIANTS = [
     Variant("route-event-sorts-decision", "src/hypergraph/runners/_shared/event_helpers.py", replace_once("        decision=state.routing_decisions[node.name],", "        decision=sorted(set(state.routing_decisions[node.name])) if isinstance(state.routing_decisions[node.name], list) else state.routing_decisions[node.name],"), {"C13.R7"}),
     Variant("async-delivery-gathered", "src/hypergraph/events/dispatcher.py", chain(replace_once("from __future__ import annotations\n", "from __future__ import annotations\n\nimport asyncio\n"), replace_once("                    await processor.on_event_async(event)", "                    pending.append(processor.on_event_async(event))"), replace_once("    async def emit_async(self, event: Event) -> None:\n        \"\"\"Send *event* to every processor, using async when available.\"\"\"\n", "    async def emit_async(self, event: Event) -> None:\n        pending = []\n")), {"C13.R1"}),
+    Variant("emit-shows-every-warning", DISP, chain(replace_once("from __future__ import annotations\n", "from __future__ import annotations\n\nimport warnings\n"), replace_once("    def emit(self, event: Event) -> None:\n", "    def emit(self, event: Event) -> None:\n        warnings.simplefilter(\"error\")\n")), {"C13.R8"}),
+    Variant("twin-emit-warns-locally", DISP, chain(replace_once("from __future__ import annotations\n", "from __future__ import annotations\n\nimport warnings\n"), replace_once("    def emit(self, event: Event) -> None:\n", "    def emit(self, event: Event) -> None:\n        warnings.warn(\"delivering\", stacklevel=2) if False else None\n")), set()),
     Variant("emit-narrow-handler", DISP, sub_first(r"(processor\.on_event\(event\)\n            )except Exception:", r"\1except ValueError:"), {"C13.R1"}),
     Variant("emit-async-reraise-always", DISP, sub_once(r"(def emit_async.*?)if self\._strict:\n                    raise", r"\1if self._strict or event is not None:\n                    raise"), {"C13.R1"}),
     Variant("emit-break-after-failure", DISP, sub_once(r"(def emit\(.*?exc_info=True,\n                \))", r"\1\n                break"), {"C13.R1"}),
